@@ -10,6 +10,7 @@ import (
 	"hash/fnv"
 	"image"
 	"image/color"
+	"image/draw"
 	"math"
 	"os"
 	"runtime"
@@ -96,6 +97,11 @@ type c11Shared struct {
 	sharedProf []*icc.Profile
 	premul     *image.RGBA
 	rejects    []c11Reject
+	// convert-own / tiles
+	opaqueRGBA  *image.RGBA
+	opaqueNRGBA *image.NRGBA
+	tileParents []draw.Image
+	tileN       int
 }
 
 // c11Reject is one input of the "rejects" target: mostly inputs a loader turns down, each for a
@@ -225,6 +231,43 @@ func newC11Shared() *c11Shared {
 	for i := 0; i < 64*16; i++ {
 		a := uint8(i * 7)
 		sh.premul.Pix[4*i], sh.premul.Pix[4*i+1], sh.premul.Pix[4*i+2], sh.premul.Pix[4*i+3] = uint8(int(a)*(i%5)/4), a/2, a, a
+	}
+	sh.opaqueRGBA, sh.opaqueNRGBA = image.NewRGBA(image.Rect(0, 0, 40, 24)), image.NewNRGBA(image.Rect(0, 0, 40, 24))
+	for i := 0; i < 40*24; i++ {
+		sh.opaqueRGBA.Pix[4*i], sh.opaqueRGBA.Pix[4*i+1], sh.opaqueRGBA.Pix[4*i+2], sh.opaqueRGBA.Pix[4*i+3] = uint8(i*7), uint8(i*13+5), uint8(i>>2), 255
+		sh.opaqueNRGBA.Pix[4*i], sh.opaqueNRGBA.Pix[4*i+1], sh.opaqueNRGBA.Pix[4*i+2], sh.opaqueNRGBA.Pix[4*i+3] = uint8(i*11), uint8(i*3+9), uint8(i>>1), 255
+	}
+	sh.tileN = 8
+	for k := 0; k < 8; k++ {
+		var p draw.Image
+		switch k % 4 {
+		case 0:
+			p = image.NewRGBA(image.Rect(0, 0, 8*9, 14))
+		case 1:
+			p = image.NewRGBA64(image.Rect(0, 0, 8*5, 11))
+		case 2:
+			p = image.NewNRGBA(image.Rect(0, 0, 8*7, 9))
+		default:
+			p = image.NewNRGBA64(image.Rect(0, 0, 8*3, 17))
+		}
+		px := pixOf(p)
+		for i := range px {
+			px[i] = uint8(i*31 + k*17)
+		}
+		if k%4 < 2 { // keep the premultiplied parents valid
+			bpp := bytesPerPixel(p)
+			for i := 0; i+bpp <= len(px); i += bpp {
+				for c := 0; c < bpp; c++ {
+					px[i+c] = 0x90 + uint8(i+c)%0x60
+				}
+				if bpp == 4 {
+					px[i+3] = 0xF8
+				} else {
+					px[i+6], px[i+7] = 0xF8, 0x00
+				}
+			}
+		}
+		sh.tileParents = append(sh.tileParents, p)
 	}
 	sh.srcImg = image.NewNRGBA(image.Rect(0, 0, 19, 13))
 	rng.Fill(sh.srcImg.Pix)
@@ -430,6 +473,44 @@ func c11Step(target string, g, it int, sh *c11Shared) uint64 {
 		h = mix(h, hashImage(prism.ConvertImageToNRGBA(sh.ycc, par)))
 		h = mix(h, hashImage(prism.ConvertImageToRGBA64(sh.ycc, par)))
 		h = mix(h, hashImage(prism.ConvertImageToRGBA(prism.ConvertImageToRGBA64(sh.srcImg, 1), par)))
+	case target == "convert-own":
+		// a shared, read-only, fully opaque image; every goroutine converts it and then writes to ITS
+		// OWN result (transforms it in place): results are the callers' own, the source stays as it is
+		if it%25 != 0 {
+			return 0
+		}
+		par := 1 + (g+it/25)%4
+		s := libSpaces[(g+it/25)%len(libSpaces)]
+		for k, res := range []draw.Image{prism.ConvertImageToNRGBA(sh.opaqueRGBA, par), prism.ConvertImageToRGBA(sh.opaqueNRGBA, par), prism.ConvertImageToRGBA64(sh.opaqueRGBA, par)} {
+			if (it/25+k)%2 == 0 {
+				s.LineariseImage(res, res, par)
+			} else {
+				s.EncodeImage(res, res, par)
+			}
+			h = mix(h, hashImage(res))
+		}
+		h = mix(h, hashImage(sh.opaqueRGBA))
+		h = mix(h, hashImage(sh.opaqueNRGBA))
+	case target == "tiles":
+		// the goroutines of a trial transform disjoint tiles (column strips, sub-images) of one parent
+		// image in place, round after round; what a tile's neighbours hold is not this call's business
+		if it%50 != 0 {
+			return 0
+		}
+		round := it / 50
+		parent := sh.tileParents[round%len(sh.tileParents)]
+		tw := parent.Bounds().Dx() / sh.tileN
+		tile := parent.(subImager).SubImage(image.Rect(g%sh.tileN*tw, 0, (g%sh.tileN+1)*tw, parent.Bounds().Dy())).(draw.Image)
+		if g >= sh.tileN {
+			return 0
+		}
+		s := libSpaces[round%len(libSpaces)]
+		if round%2 == 0 {
+			s.EncodeImage(tile, tile, 1+round%3)
+		} else {
+			s.LineariseImage(tile, tile, 1+round%3)
+		}
+		h = mix(h, hashImage(tile))
 	case target == "convert-premul":
 		// every alpha byte through the un-premultiplying helpers, from the first call on
 		if it%20 != 0 {
@@ -532,7 +613,7 @@ func float32bits(f float32) uint32 {
 }
 
 var c11Targets = []string{"srgb.from16", "srgb.to16", "srgb.both", "adobergb.from16", "adobergb.to16", "adobergb.both", "prophotorgb.from16", "prophotorgb.to16", "prophotorgb.both",
-	"displayp3", "colors", "tables8", "images", "images-inplace", "images-rgba64", "images-wide", "images-shapes", "shared-objects", "convert-premul", "generate", "hash-transform", "convert", "adapt", "loaders", "rejects", "icc", "mixed"}
+	"displayp3", "colors", "tables8", "images", "images-inplace", "images-rgba64", "images-wide", "images-shapes", "tiles", "convert-own", "shared-objects", "convert-premul", "generate", "hash-transform", "convert", "adapt", "loaders", "rejects", "icc", "mixed"}
 
 func c11Lazy(t string) bool {
 	return strings.Contains(t, ".from16") || strings.Contains(t, ".to16") || strings.Contains(t, ".both") || t == "displayp3" || t == "colors" || t == "mixed"
@@ -679,7 +760,11 @@ func childC11(args []string) int {
 		}
 		fmt.Printf("ALONE-MISMATCH item=%d %s\n", k, strings.ReplaceAll(m, "\n", " "))
 	}
-	// sequential recomputation
+	// sequential recomputation (for the tiles target on fresh parents: the tiles were transformed in place)
+	shConc := sh
+	if target == "tiles" {
+		sh = newC11Shared()
+	}
 	mism := 0
 	for g := 0; g < n; g++ {
 		if panics[g] != "" {
@@ -695,6 +780,13 @@ func childC11(args []string) int {
 		if h != sums[g] {
 			mism++
 			fmt.Printf("MISMATCH g=%d concurrent=%016x sequential=%016x\n", g, sums[g], h)
+		}
+	}
+	if target == "tiles" {
+		for k := range sh.tileParents {
+			if hc, hs := hashImage(shConc.tileParents[k]), hashImage(sh.tileParents[k]); hc != hs {
+				fmt.Printf("WORKERS-MISMATCH parent image %d (%T), whose tiles were transformed in place by different goroutines at the same time, differs from the same tiles transformed one after the other\n", k, sh.tileParents[k])
+			}
 		}
 	}
 	// overlap of first calls (evidence only)
